@@ -530,7 +530,7 @@ def select(p: Program, hs, prop):
     return out
 
 
-def support_items(p: Program):
+def support_items(p: Program, have_types=None):
     """spec helpers and Arbitrary impls emitted around the annotated expansion"""
     top, proofs = [], []
     dbg = [s for s in p.structs if s.debug]
@@ -547,7 +547,7 @@ def support_items(p: Program):
         proofs.append(e.arbitrary_impl())
     for s in p.structs:
         proofs.append(arbitrary_impl_struct(s))
-        if s.builder_expected():
+        if s.builder_expected() and (have_types is None or s.pname in have_types):
             proofs.append(arbitrary_impl_partial(s))
     return "".join(top), "".join(proofs)
 
